@@ -23,13 +23,13 @@ type TokDesc struct {
 
 // Prov is the decoded provenance of one argument.
 type Prov struct {
-	Kind    string  `json:"kind"` // "single" | "group" | "obj" | "foreign"
-	Tok     int64   `json:"tok,omitempty"`
-	Dyn     string  `json:"dyn,omitempty"` // dynamic type of an interface value
-	Elems   []int64 `json:"elems,omitempty"`
+	Kind    string   `json:"kind"` // "single" | "group" | "obj" | "foreign"
+	Tok     int64    `json:"tok,omitempty"`
+	Dyn     string   `json:"dyn,omitempty"` // dynamic type of an interface value
+	Elems   []int64  `json:"elems,omitempty"`
 	ElemDyn []string `json:"-"`
-	NilSl   bool    `json:"nilsl,omitempty"`
-	Fields  []Prov  `json:"fields,omitempty"`
+	NilSl   bool     `json:"nilsl,omitempty"`
+	Fields  []Prov   `json:"fields,omitempty"`
 }
 
 const (
